@@ -49,7 +49,68 @@ def run(case):
                             xml.dom.minidom.parseString(body.encode('utf8'))
                         except Exception as ex:
                             problems.append('%s: XML not well formed: %s' % (name, ex))
+    problems += end_to_end()
     return {'fails': bool(problems), 'why': '; '.join(problems[:5]), 'cases': n, 'classes': len(ce.__all__)}
+
+
+def end_to_end():
+    """through real applications (default and debug error handlers): negotiated format for Accept lists with q-values
+    and wildcards (also on the fallback renderer), details with braces, and request-controlled text in the
+    debug page never reaching the page as markup"""
+    from html.parser import HTMLParser
+    from clastic import Application, Route, Response
+    from clastic.errors import BadRequest
+    from werkzeug.test import Client
+    problems = []
+    nasty = '</textarea><script>alert("x")</script> {name} {message} %s'
+
+    def bad():
+        raise BadRequest(nasty)
+
+    def boom():
+        raise LookupError(nasty)
+
+    class Scripts(HTMLParser):
+        def __init__(self):
+            HTMLParser.__init__(self)
+            self.bad = []
+
+        def handle_starttag(self, tag, attrs):
+            if tag == 'script' and any('alert' in (v or '') for _, v in attrs):
+                self.bad.append(tag)
+
+        def handle_data(self, data):
+            if self.lasttag == 'script' and 'alert("x")' in data:
+                self.bad.append('script:' + data[:20])
+    for debug in (False, True):
+        for rebind in (True, False):
+            app = Application([Route('/bad', bad), Route('/boom', boom)], debug=debug)
+            if not rebind:
+                app = Application([], debug=debug)
+                app.add(Route('/bad', bad), rebind_render_error=False)
+                app.add(Route('/boom', boom), rebind_render_error=False)
+            cl = Client(app, Response)
+            for path, code in (('/bad', 400), ('/boom', 500)):
+                for accept, want in (('text/html', 'text/html'), ('application/json', 'application/json'),
+                                     ('image/webp, application/json;q=0.9', 'application/json'),
+                                     ('application/xhtml+xml, application/xml;q=0.9', 'application/xml'),
+                                     ('image/png', 'text/plain'), (None, None)):
+                    try:
+                        r = cl.get(path, headers={'Accept': accept} if accept else {})
+                    except Exception as e:
+                        problems.append('%s debug=%s Accept=%s: %s escaped' % (path, debug, accept, type(e).__name__))
+                        continue
+                    if r.status_code != code:
+                        problems.append('%s debug=%s Accept=%s: status %s' % (path, debug, accept, r.status_code))
+                    ct = (r.headers.get('Content-Type') or '').split(';')[0]
+                    if want and not (debug and code == 500) and ct != want:
+                        problems.append('%s debug=%s rebind=%s Accept=%s: answered %s, expected %s' % (path, debug, rebind, accept, ct, want))
+                    if ct == 'text/html':
+                        p = Scripts()
+                        p.feed(r.get_data(as_text=True))
+                        if p.bad:
+                            problems.append('%s debug=%s Accept=%s: error text reached the page as markup (%s)' % (path, debug, accept, p.bad[:1]))
+    return problems
 
 
 if __name__ == '__main__':
